@@ -463,6 +463,12 @@ Qed.
 Lemma omitted_false f c : f_skip f = false -> f_omitempty f = false -> omitted (claim_value SW) c f = false.
 Proof. intros Sk Om. unfold omitted. rewrite Sk, Om. destruct (claim_value SW f c) as [[|]|]; reflexivity. Qed.
 
+Arguments enc_swcs : simpl never.
+
+Lemma fold_filter {A B} (p : B -> bool) (g : A -> B -> A) (l : list B) : forall a,
+  fold_left g (filter p l) a = fold_left (fun a x => if p x then g a x else a) l a.
+Proof. induction l as [|x l IH]; intro a; cbn; [reflexivity|]. destruct (p x); cbn; apply IH. Qed.
+
 Ltac kill_nonomit c :=
   repeat match goal with
   | |- context [omitted (claim_value SW) c ?f] => rewrite (omitted_false f c eq_refl eq_refl)
@@ -471,7 +477,7 @@ Ltac kill_nonomit c :=
 Lemma final_p1 c : c_kind c = K1 -> claims_wire_ok c ->
   view (fold_left (fun acc f => putf_claim f c acc) (emitted (claim_value SW) c spec_p1_fields) (upd_profile (new_p1 S true) None)) = view c.
 Proof.
-  intros K Ok. unfold emitted, spec_p1_fields. cbn [filter]. kill_nonomit c.
+  intros K Ok. unfold emitted. rewrite fold_filter. unfold spec_p1_fields. cbn [fold_left]. kill_nonomit c. cbn [negb].
   destruct c as [k p cl lc im bo ce sw ns no ins vs can]. cbn in K. subst k.
   destruct Ok as (Ca & Pr & _). cbn in Ca, Pr. subst can.
   destruct p as [[s| |]|]; try contradiction;
@@ -483,7 +489,7 @@ Qed.
 Lemma final_p2 c : c_kind c = K2 -> claims_wire_ok c ->
   view (fold_left (fun acc f => putf_claim f c acc) (emitted (claim_value SW) c spec_p2_fields) (upd_profile (new_p2 S) None)) = view c.
 Proof.
-  intros K Ok. unfold emitted, spec_p2_fields. cbn [filter]. kill_nonomit c.
+  intros K Ok. unfold emitted. rewrite fold_filter. unfold spec_p2_fields. cbn [fold_left]. kill_nonomit c. cbn [negb].
   destruct c as [k p cl lc im bo ce sw ns no ins vs can]. cbn in K. subst k.
   destruct Ok as (Ca & Pr & _ & _ & _ & _ & _ & _ & Ns & _). cbn in Ca, Pr, Ns. subst can.
   destruct p as [[s| |]|]; try contradiction. subst s.
